@@ -136,8 +136,8 @@ def main(replay=None):
     # (kind, text bytes, expected listing or None, uses-UN-operand)
     cases = []
 
-    def add_tree(kind, ss, red, tight, plain=False, un_operand=False):
-        text = S.render(ss, rng, red, tight, plain).encode("latin-1")
+    def add_tree(kind, ss, red, tight, plain=False, un_operand=False, comments=0.0):
+        text = S.render(ss, rng, red, tight, plain, comments).encode("latin-1")
         cases.append({"kind": kind, "text": text, "expected": S.expected_listing(ss), "un": un_operand, "ss": ss})
 
     def add_raw(kind, text):
@@ -167,6 +167,10 @@ def main(replay=None):
             add_tree("random:d%d" % depth, ss, rng.choice([0.0, 0.0, 0.15, 0.4]), rng.choice([0.0, 0.3, 0.8]))
         for kind, ss in names_sweep(gen, rng, None if thorough else 150):
             add_tree(kind, ss, rng.choice([0.0, 0.2]), 0.3)
+        # comments between the tokens (doc and banner styles, stars before the closing slash, line comments): blank space for the parser
+        for i in range(3000 if thorough else 400):
+            depth = rng.choice([2, 3, 3, 4])
+            add_tree("comment:d%d" % depth, gen.stmts(depth, rng.choice([1, 1, 2])), rng.choice([0.0, 0.15]), 0.3, comments=rng.choice([0.15, 0.3, 0.5]))
         for kind, ss in chains(gen, rng, None if thorough else 60):
             add_tree(kind, ss, rng.choice([0.0, 0.0, 0.3]), 0.3)
         # the recorded defect: a unary+nular name used as an operand (real names first, then the harness's own)
@@ -231,9 +235,9 @@ def main(replay=None):
                 rep["model_repaired"] = mr
                 run.violation("listing is not the post-order of the documented reading", rep)
                 continue
-            # the model must meet the oracle too (machinery check)
+            # the model must meet the oracle too (machinery check) - where it has an answer (it does not model comments)
             mgot = S.tidy(ma_c[3:]) if ma_c.startswith("OK\t") else ma_c
-            if S.norm_fold(mgot) != S.norm_fold(exp):
+            if ma != "UNSUPPORTED" and S.norm_fold(mgot) != S.norm_fold(exp):
                 rep["broken"] = "MODEL (SyntaxDefs.parse_text/compile_block) disagrees with the oracle: machinery bug"
                 run.violation("model disagrees with the post-order oracle", rep, found_input=False)
                 continue
